@@ -14,8 +14,8 @@ RULE = ('histories over the name lattice /a, /a/b, /a/b/c, /x (with/without impl
         'several per name, events Express+Await/Data/Nack/VDone/Cancel/Shutdown/AdvanceTo with event times drawn at, one '
         'before and one after pending deadlines and all three tie linearisations; targeted patterns always present '
         '(cancel then late Nack/Data, validator outliving the lifetime with a second Interest on the name, mixed '
-        'CanBePrefix, ties, shutdown with validations in flight, digests); thorough: all histories up to 6 events over '
-        '2 names x 3 Interests; both front-ends. non-trivial = at least one Interest and more than two events')
+        'CanBePrefix, ties, shutdown with validations in flight, digests); thorough: all histories up to 5 events over '
+        '2 names x 3 Interests + a 1/40 sample of the 6-event ones; both front-ends. non-trivial = at least one Interest and more than two events')
 ASSUMPTIONS = ['asyncio (CPython 3.12: Future, Task.cancel, wait_for/timeouts.Timeout, FIFO ready queue) is the event '
                'alphabet of the model; the three tie modes are the linearisations a loop turn permits',
                'validators are harness coroutines that answer at once or wait on a harness future; validators raising '
@@ -66,17 +66,22 @@ def run(ctx):
     for fe in ('v2', 'v1'):
         for tag, h in P.targeted(fe):
             P.check_history(ctx, fe, h, 'targeted.' + tag, 'C03')
-        n = ctx.n(900, 40000)
+        n = ctx.n(900, 8000)
         for k in range(n):
             wf = ctx.rng.random() < 0.85
             h = P.rand_history(ctx.rng, fe, wf=wf)
             P.check_history(ctx, fe, h, 'random' if wf else 'random-late-await', 'C03')
         if ctx.thorough:
+            # bounded enumeration (supports the tie, it is not the proof): every history of up to 5 events over
+            # 2 names x 3 Interests (41 111), and a seeded 1/40 sample of the 321 160 histories with 6 events
             cnt = 0
             for h in enumerate_small(fe):
-                P.check_history(ctx, fe, h, 'enum6', 'C03')
+                k = sum(1 for e in h if e[0] != 'await')
+                if k == 6 and ctx.rng.random() >= 0.025:
+                    continue
+                P.check_history(ctx, fe, h, f'enum{k}', 'C03')
                 cnt += 1
-            ctx.stat(f'{fe}.enum6.total', cnt)
+            ctx.stat(f'{fe}.enum.total', cnt)
 
 
 def replay(ctx, data):
